@@ -136,6 +136,9 @@ class FitterInit(Contract):
         return dict(self=c.obj(FITTER), filter_names=c.list(['F0', 'F1']), apertures=Quantity(self.ap, U['arcsec']), model_dir='models_dir',
                     extinction_law=law, av_range=(c.real('av_lo'), c.real('av_hi')), distance_range=self.dr, remove_resolved=False, use_memmap=False)
 
+    def raises(self, c, a):
+        return {'Exception': ('may', True)}       # whatever reading the models refuses
+
     def havoc(self, c, a):
         # at call sites (fit()): the fields of the new fitter
         ft = make_fitter(c)
@@ -243,7 +246,7 @@ class FitMain(Contract):
                     output_convolved=(variant == 'convolved'), remove_resolved=False)
 
     def raises(self, c, a):
-        return {'ValueError': ('may', True)}
+        return {'ValueError': ('may', True), 'Exception': ('may', True)}      # malformed data lines; models that cannot be read
 
     def ensures(self, c, a, result, old):
         closes = [e for e in c.st.events if e[0] == 'call' and e[1].endswith('FitInfoFile.close')]
